@@ -11,6 +11,58 @@ ITER_OK = re.compile(
     r"|std::iter::range::<impl std::iter::Iterator for std::ops::Range(Inclusive)?<(u8|u16|u32|u64|usize|i8|i16|i32|i64|isize)>>::next$)"
 )
 
+_FINITE_BASE = ("std::ops::Range<", "std::ops::RangeInclusive<", "std::slice::Iter<", "std::slice::IterMut<", "std::vec::IntoIter<",
+                "std::collections::vec_deque::Iter<", "std::collections::vec_deque::IterMut<", "std::collections::vec_deque::IntoIter<",
+                "std::option::IntoIter<", "std::option::Iter<", "std::slice::Chunks<", "std::slice::ChunksExact<", "std::slice::Windows<",
+                "std::collections::hash_map::Iter<", "std::collections::hash_map::Values<", "std::collections::hash_map::Keys<")
+_ADAPT1 = ("std::iter::Rev<", "std::iter::Skip<", "std::iter::Enumerate<", "std::iter::Take<", "std::iter::Map<", "std::iter::Filter<",
+           "std::iter::TakeWhile<", "std::iter::SkipWhile<", "std::iter::StepBy<", "std::iter::Peekable<", "std::iter::Cloned<",
+           "std::iter::Copied<", "std::iter::FilterMap<", "std::iter::Inspect<")
+_ADAPT2 = ("std::iter::Zip<", "std::iter::Chain<")
+
+
+def _generic_args(t):
+    """top-level generic arguments of `path<a, b, ...>`"""
+    i = t.index("<")
+    depth, cur, out = 0, "", []
+    for ch in t[i + 1:]:
+        if ch == "<":
+            depth += 1
+        elif ch == ">":
+            if depth == 0:
+                break
+            depth -= 1
+        if ch == "," and depth == 0:
+            out.append(cur.strip())
+            cur = ""
+        else:
+            cur += ch
+    if cur.strip():
+        out.append(cur.strip())
+    return [a for a in out if not a.startswith("'")]
+
+
+def finite_iter_type(t):
+    """is the iterator type finite by construction: a finite std source, possibly under adaptors that cannot add elements"""
+    t = t.strip()
+    if any(t.startswith(x) for x in _FINITE_BASE):
+        return True
+    if any(t.startswith(x) for x in _ADAPT1):
+        a = _generic_args(t)
+        return bool(a) and finite_iter_type(a[0])
+    if any(t.startswith(x) for x in _ADAPT2):
+        a = _generic_args(t)
+        return len(a) >= 2 and finite_iter_type(a[0]) and finite_iter_type(a[1])
+    return False
+
+
+def iter_ok(inst):
+    if ITER_OK.match(inst):
+        return True
+    m = re.fullmatch(r"<(.*) as std::iter::Iterator>::next", inst)
+    return bool(m) and finite_iter_type(m.group(1))
+
+
 PEEK_POP = {
     "VecDeque::front": "VecDeque::pop_front",
     "BinaryHeap::peek": "BinaryHeap::pop",
@@ -159,7 +211,7 @@ def classify(b, L, bitwidth, fa):
         inst = ct.get("inst", "")
         info.cls = "iterator"
         info.desc = "for _ in " + re.sub(r"<'[a-z_]+, ", "<", inst)[:80]
-        if not ITER_OK.match(inst):
+        if not iter_ok(inst):
             info.why = "iterator type not in the finite-by-construction list: " + inst
             return info
         itv = ct["args"][0]
